@@ -140,6 +140,11 @@ def main():
                         r["replay_input"] = c.model_to_input(r["model"])
                     except Exception as e:  # noqa
                         r["replay_input"] = None
+                if r["status"] == "undecided" and r.get("candidate_model") and hasattr(c, "model_to_input"):
+                    try:
+                        r["replay_input"] = c.model_to_input(r["candidate_model"])
+                    except Exception as e:  # noqa
+                        r["replay_input"] = None
                 r["witness_class"] = "model"
                 r["message"] = ("obligation %s refuted by z3: %s" % (n, r.get("solver_output", ""))) if r["status"] == "failed" else ""
                 fo["obligations"].append(r)
